@@ -2615,8 +2615,16 @@ class SliceDataset(Dataset):
             for idx in self.slice:
                 yield self.input_dataset[idx]
 
+    _key_set = None
+
     def __getitem__(self, item):
         if isinstance(item, str):
+            if self._key_set is None:
+                self._key_set = set(self.keys())
+            if item not in self._key_set:
+                # The key may exist in the input dataset, but it is not part
+                # of this selection.
+                raise KeyErrorCloseMatches(item, self.keys())
             return self.input_dataset[item]
         elif isinstance(item, numbers.Integral):
             return self.input_dataset[self.slice[item]]
